@@ -14,7 +14,9 @@ import vcommon  # noqa: E402
 def main():
     b = vcommon.repo_build("plain")
     gen.generate(b)
-    ok, out = vcommon.lake_build(["OvniModel", "ovnimodel"])
+    import re
+    exes = re.findall(r'\[\[lean_exe\]\]\s*name\s*=\s*"([^"]+)"', open(os.path.join(vcommon.LEAN, "lakefile.toml")).read())
+    ok, out = vcommon.lake_build(["OvniModel"] + exes)
     print(out[-3000:])
     if not ok:
         sys.exit(1)
